@@ -135,6 +135,8 @@ class TlSchemas:
     def serialize_field(self, type_: str, value):
         logger.log(level=5, msg=f'serializing {type_} with value {value}')
         result = b''
+        if isinstance(value, (bytearray, memoryview)):
+            value = bytes(value)  # every branch below tests for bytes: other byte strings were silently written as nothing
         if type_ in self.base_types:
             byte_len = self.base_types.get(type_)
             if byte_len:
